@@ -1,7 +1,7 @@
 """C18 - reduce_size enforces every limit by evicting the minimal LRU prefix.
 
 Functions under contract: StoreBackendMixin._get_items_to_delete, StoreBackendMixin.enforce_store_limits,
-Memory.reduce_size.  disk.memstr_to_bytes is used through its (assumed here, bounded elsewhere) contract.
+Memory.reduce_size, disk.memstr_to_bytes (float() assumed: the literal's value or ValueError).
 """
 import z3
 
@@ -12,7 +12,7 @@ from pyvc.values import (
     BOOL, INT, REAL, STR, Atom, ListOf, ObjOf, OneOf, Opaque, OpaqueOf, Opt, PyList, Rec, SList, Sym, Unsupported,
 )
 
-from pyvc.values import ClassRef
+from pyvc.values import ClassRef, kind_of
 from .common import install_common, sorted_perm
 
 ClassRefCI = ClassRef("CacheItemInfo")
@@ -33,17 +33,51 @@ def build():
     install_common(p)
     p.assume_note("datetimes are real timestamps, timedelta is its total_seconds (no float rounding)")
 
-    memstr = z3.Function("memstr", z3.StringSort(), z3.IntSort())
-    p.spec_funcs["memstr"] = lambda interp, s: Sym(INT, memstr(ops.to_term(s)))
 
-    # ---- disk.memstr_to_bytes: contract used at call sites; its own body is checked bounded (C18 bounded part)
+    # ---- disk.memstr_to_bytes under contract.  The spec is taken from the documented meaning of a size string ("<number><K|M|G>",
+    # binary multiples): memstr(text) = trunc(NUM(text[:-1]) * 1024**{K:1, M:2, G:3}[text[-1]]).  float() is the only assumed piece:
+    # float(s) is NUM(s) when ISNUM(s) and a ValueError otherwise (NUM, ISNUM uninterpreted; float rounding is not modelled - replay/c18.py
+    # `memstr` compares with exact rational arithmetic on generated literals).
+    NUM = z3.Function("NUM", z3.StringSort(), z3.RealSort())
+    ISNUM = z3.Function("ISNUM", z3.StringSort(), z3.BoolSort())
+
+    def m_float(interp, args, kwargs):
+        v = args[0]
+        if isinstance(v, (int, float)) and not isinstance(v, bool):
+            return float(v)
+        if kind_of(v) == STR:
+            t = ops.to_term(v)
+            if not interp.ctx.branch(ISNUM(t), "float-literal"):
+                interp.raise_("ValueError")
+            return Sym(REAL, NUM(t))
+        raise Unsupported("float(%r)" % (v,))
+    p.models["builtin:float"] = m_float
+
+    def unit_of(ch):
+        return z3.If(ch == z3.StringVal("K"), z3.RealVal(1024), z3.If(ch == z3.StringVal("M"), z3.RealVal(1024 ** 2), z3.RealVal(1024 ** 3)))
+
+    def trunc(r):
+        return z3.If(r >= 0, z3.ToInt(r), -z3.ToInt(-r))
+
+    def memstr_spec(t):
+        n = z3.Length(t)
+        return trunc(unit_of(z3.SubString(t, n - 1, 1)) * NUM(z3.SubString(t, 0, n - 1)))
+
+    def well_formed(t):
+        n = z3.Length(t)
+        last = z3.SubString(t, n - 1, 1)
+        return z3.And(n >= 1, z3.Or(last == z3.StringVal("K"), last == z3.StringVal("M"), last == z3.StringVal("G")), ISNUM(z3.SubString(t, 0, n - 1)))
+    p.spec_funcs["memstr"] = lambda interp, s: Sym(INT, memstr_spec(ops.to_term(s)))
+    p.spec_funcs["size_string"] = lambda interp, s: Sym(BOOL, well_formed(ops.to_term(s)))
     p.add(Contract(
-        "joblib/disk.py", "memstr_to_bytes", props=["C18"], assumed=True,
+        "joblib/disk.py", "memstr_to_bytes", props=["C18"],
         params=dict(text=STR),
         returns=INT,
-        ensures={"value": "result == memstr(text)"},
-        exsures={"ValueError": {}},
-        note="assumed at call sites: returns memstr(text) or raises ValueError; memstr itself is checked bounded",
+        ensures={"value_is_number_times_binary_unit_truncated": "result == memstr(text)",
+                 "returns_only_for_a_size_string": "size_string(text)"},
+        exsures={"ValueError": {"only_for_a_malformed_size_string": "not size_string(text)"},
+                 "IndexError": {"only_for_the_empty_string": "len(text) == 0"}},
+        note="float(s) assumed: the finite value NUM(s) when ISNUM(s), ValueError otherwise (inf and nan literals are not modelled); the empty string escapes as IndexError (not a size string: outside C18)",
     ))
 
     def get_items(interp, args, kwargs):
@@ -66,7 +100,7 @@ def build():
         if bl is None:
             g["BL"] = None
         elif ops.kind_of(bl) == STR:
-            g["BL"] = Sym(INT, memstr(bl.term))
+            g["BL"] = Sym(INT, memstr_spec(bl.term))
         else:
             g["BL"] = bl
 
@@ -97,7 +131,8 @@ def build():
             "minimal": "forall(k, 0, len(result), not (%s))" % STOP.format(j="k"),
         },
         exsures={"ValueError": {
-            "only-documented": "isinstance(bytes_limit, str) or (age_limit is not None and age_limit.total_seconds() < 0)"}},
+            "only-documented": "(isinstance(bytes_limit, str) and not size_string(bytes_limit)) or (age_limit is not None and age_limit.total_seconds() < 0)"},
+            "IndexError": {"only_for_the_empty_string": "isinstance(bytes_limit, str) and len(bytes_limit) == 0"}},
         loops={1: Loop(
             "for item in items",
             invariant={
@@ -156,7 +191,7 @@ def build():
         ensures={
             "cleared_exactly_R": "len(CLEARED) == len(ret__get_items_to_delete) and forall(j, 0, len(ret__get_items_to_delete), CLEARED[j] is ret__get_items_to_delete[j].path)",
         },
-        exsures={"ValueError": {"nothing-cleared": "len(CLEARED) == 0"}},
+        exsures={"ValueError": {"nothing-cleared": "len(CLEARED) == 0"}, "IndexError": {"nothing-cleared": "len(CLEARED) == 0"}},
         loops={1: Loop(
             "for item in items_to_delete",
             invariant={"cleared": "len(CLEARED) == _i and forall(j, 0, _i, CLEARED[j] is items_to_delete[j].path)",
